@@ -198,7 +198,7 @@ func (t *Dense) GobEncode() (p []byte, err error){
 		return
 	}
 
-	data := t.Data()
+	data := t.array.Data()
 	if err = encoder.Encode(&data); err != nil {
 		return
 	}
